@@ -159,7 +159,8 @@ def provenance(rng, t, steps=None, reorder=False):
                 elif k == 12 and int(np.prod(t.row_dims, dtype=np.int64)) * int(np.prod(t.col_dims, dtype=np.int64)) <= 4096 and t.ranks[0] == 1 and t.ranks[-1] == 1:
                     x = t.full()
                     if np.any(x):
-                        t = TT(x)  # TT-SVD output (left-orthonormal cores)
+                        t = TT(x, threshold=1e-13)  # TT-SVD output (left-orthonormal cores; without the cut the rounding-level singular
+                        # values of a low-rank tensor come back as extra ranks: a numerically rank-deficient, over-parameterised train)
                 if k == 0:
                     t = t.copy()
                 elif k == 1:
